@@ -224,7 +224,7 @@ def World.mainStep (wt : K → K) (w : World K) : World K × StepRes K :=
         | none => []
       (outs.foldl (World.applyOut wt w.now) { w with pc := .ringCheck }, .continue)
   | .idleSlept =>
-    if w.bot.serverMode && (w.lastActivity + Num.ofQ inactivityExitTime < w.now) then
+    if w.bot.serverMode && !w.bot.isRinging && (w.lastActivity + Num.ofQ inactivityExitTime < w.now) then
       ({ w with exited := true, pc := .done }, .stop)
     else ({ w with pc := .idleCheck }, .continue)
   | .ringCheck =>
